@@ -326,6 +326,12 @@ pub fn pool_ref(l: &Ledger, cfg: &Pubkey, label: &str, mint_a: Pubkey, mint_b: P
 
 pub fn ix_init_pool_v1(p: &PoolRef, funder: Pubkey, sqrt_price: u128) -> Instruction {
     let (_, bump) = pool_addr(&p.cfg, &p.mint_a, &p.mint_b, p.fee_tier_index);
+    ix_init_pool_v1_with_bump_arg(p, funder, sqrt_price, bump)
+}
+
+/// The legacy instruction carries a bump ARGUMENT that the program documents as ignored (it stores the bump it derived itself);
+/// worlds whose label ends in "-bump<N>" are created with N there: a pool that stored it could never sign for its vaults.
+pub fn ix_init_pool_v1_with_bump_arg(p: &PoolRef, funder: Pubkey, sqrt_price: u128, bump: u8) -> Instruction {
     ix(
         wa::InitializePool {
             whirlpools_config: p.cfg,
@@ -985,7 +991,14 @@ pub fn build_std(spec: &StdSpec) -> (Ledger, StdWorld) {
     }
     let pool = pool_ref(&l, &cfg.addr, lab, ma, mb, spec.tick_spacing, spec.tick_spacing);
     let v1 = pool.is_v1_capable();
-    let i = if v1 { ix_init_pool_v1(&pool, funder, spec.sqrt_price) } else { ix_init_pool_v2(&pool, funder, spec.sqrt_price) };
+    let bump_arg: Option<u8> = lab.rfind("-bump").and_then(|i| lab[i + 5..].parse::<u8>().ok());
+    let i = if let (true, Some(b)) = (v1, bump_arg) {
+        ix_init_pool_v1_with_bump_arg(&pool, funder, spec.sqrt_price, b)
+    } else if v1 {
+        ix_init_pool_v1(&pool, funder, spec.sqrt_price)
+    } else {
+        ix_init_pool_v2(&pool, funder, spec.sqrt_price)
+    };
     must("init_pool", svm::process(&mut l, &i));
     for (off, enc) in &spec.arrays {
         let start = off * pool.ticks_in_array();
